@@ -90,6 +90,10 @@ type Inst struct {
 	DB      *clover.DB
 	Uses    int
 	OnOpen  func(*Inst) // run on every replacement instance Fresh opens (e.g. pre-growing a bbolt file)
+	// Birth: what the store of a brand-new database holds right after Open (nothing on the pinned tree; an
+	// implementation is free to keep a record of its own there, e.g. a format version). "Empty" means this content:
+	// Fresh(nil) restores it rather than wiping it, on the instance under test and on the rebuild scratch alike.
+	Birth []vstore.KV
 }
 
 func Open(backend string) (*Inst, error) {
@@ -97,7 +101,11 @@ func Open(backend string) (*Inst, error) {
 	if backend != Badger {
 		dir = NewScratchDir()
 	}
-	return OpenAt(backend, dir)
+	in, err := OpenAt(backend, dir)
+	if err == nil {
+		in.Birth, _ = vstore.Dump(in.Raw)
+	}
+	return in, err
 }
 
 func OpenAt(backend, dir string) (*Inst, error) {
@@ -207,6 +215,10 @@ func (i *Inst) Fresh(kvs []vstore.KV) (*Inst, error) {
 		}
 	}
 	i.V.ForgetLeaks()
+	empty := kvs == nil
+	if empty {
+		kvs = i.Birth
+	}
 	if err := vstore.Restore(i.Raw, kvs); err != nil {
 		// the instance may be poisoned (leaked transaction): replace it
 		i.Close()
@@ -218,6 +230,9 @@ func (i *Inst) Fresh(kvs []vstore.KV) (*Inst, error) {
 		*i = *n
 		if i.OnOpen != nil {
 			i.OnOpen(i)
+		}
+		if empty {
+			kvs = i.Birth
 		}
 		if err := vstore.Restore(i.Raw, kvs); err != nil {
 			return nil, err
